@@ -698,6 +698,17 @@ pub fn drive(tier: &str) -> i32 {
     let b = bfs(&alpha, if quick { 3 } else { 7 }, if quick { 700 } else { 12000 });
     let (states, trans) = (b.discovered, b.trans);
     let (bfs_expanded, bfs_depth, bfs_stop) = (b.expanded, b.depth_fully_expanded, b.stopped_by);
+    // the same model state space enumerated by stateright: state counts must agree, model invariants must hold
+    let sr = vcore::srcheck::check_file_space(&alpha, bfs_depth);
+    if sr.unique_states != states {
+        run.machinery.push(format!("state-space cross-check: the driver's search discovered {} model states within {} operations, stateright {}", states, bfs_depth, sr.unique_states));
+    }
+    for v in &sr.invariant_violations {
+        run.machinery.push(format!("state-space cross-check: the file model violates its own invariant '{}'", v));
+    }
+    for v in &sr.not_reached {
+        run.machinery.push(format!("non-vacuity: no explored model state satisfies '{}'", v));
+    }
     plan.push(json!({"group": "bfs", "model_states_discovered": b.discovered, "model_states_expanded": b.expanded, "states_per_level": b.levels,
         "every_state_within_this_many_successful_operations_was_expanded": b.depth_fully_expanded, "stopped_by": b.stopped_by, "transitions": trans.len()}));
     for c in trans.chunks(100) {
@@ -742,6 +753,9 @@ pub fn drive(tier: &str) -> i32 {
     ev.set("states_expanded", bfs_expanded as u64);
     ev.set("bfs_depth_fully_expanded", bfs_depth as u64);
     ev.set("bfs_stopped_by", bfs_stop);
+    ev.set("stateright_cross_check", json!({"checker": "stateright 0.31 breadth-first, one thread, depth target = bfs_depth_fully_expanded + 1", "unique_states": sr.unique_states,
+        "agrees_with_driver_search": sr.unique_states == states, "transitions_generated": sr.generated_transitions, "max_depth": sr.max_depth,
+        "model_invariants_violated": sr.invariant_violations, "reachability_witnessed": sr.reached, "reachability_not_witnessed": sr.not_reached}));
     ev.set("traces_validated_against_impl", run.evaluations);
     ev.set("distinct_nontrivial", run.nontrivial);
     ev.assume("not decided by the property text and therefore not generated: the same file open on two handles unless both read it, KILL / NAME of an open file, NAME onto an existing file, EOF of a file not open for input, text read into a numeric variable");
